@@ -577,7 +577,25 @@ def replay(cx):
                         bad.append(f"LocalAnomalyScore({'L2Cost(1.0)' if fixed else 'L2Cost()'}).evaluate(batch) row {i} = cut {(s, a, b, e)}: {got[i].tolist()} but outer-inner-pooled = {want.tolist()} on X={X.tolist()}")
                         break
             else:
-                bad.append(f"{ob} failed (concrete obligation, see info {info})")
+                # converter obligations: re-evaluated here on the real functions (not taken over from the harness run)
+                from skchange.anomaly_scores import to_local_anomaly_score, to_saving
+                from skchange.change_scores import to_change_score
+                table = {"to_change_score": (to_change_score, TableChangeScore(p=p), TableSaving(p=p)),
+                         "to_saving": (to_saving, TableSaving(p=p), TableChangeScore(p=p)),
+                         "to_local_anomaly_score": (to_local_anomaly_score, TableLocalScore(p=p), TableSaving(p=p))}
+                name = ob.split(".")[0]
+                if name not in table:
+                    return dict(reproduced=None, key=key, what=f"{ob}: no native replay for this obligation (info {str(info)[:200]})")
+                conv, same, other = table[name]
+                if conv(same) is not same:
+                    bad.append(f"{name}(<a scorer of the matching type>) does not return the same object")
+                try:
+                    conv(other)
+                    bad.append(f"{name}(<a scorer of another type>) does not raise ValueError")
+                except ValueError:
+                    pass
+                if type(conv(TableCost(param=0.0, p=p))).__name__ not in ("ChangeScore", "Saving", "LocalAnomalyScore"):
+                    bad.append(f"{name}(<a cost>) does not wrap the cost in an adapter")
         return dict(reproduced=bool(bad), key=key, what="; ".join(bad)[:700])
     Xf = np.array([[env.get(f"x_{i}_{j}", 0.0) for j in range(p)] for i in range(n)])
     cut = info.get("cut")
